@@ -196,6 +196,61 @@ def make_retry(framing, first):
     return retry
 
 
+def make_peerclose(framing, retries):
+    """the peer closes the connection after k bytes of the reply (k symbolic, 0 = at once): reads on that connection
+    return nothing from then on, and only a connection opened after the client called close() is healthy again"""
+    def peerclose(u: int, v: bytes, k: int) -> bool:
+        import pymodbus.factory as F
+        assume(len(v) == 4)
+        assume(1 <= u <= 247)
+        cl = make_client(framing, rx=b"", retries=retries, retry_on_empty=False, retry_on_invalid=False)
+        state = {"pending": b"", "dead_gen": -1, "txn": 1}
+        first = adu.ref_adu(framing, bytes([3, 2, v[0], v[1]]), u, bytes([0, 1]))
+        assume(0 <= k < len(first))
+        known("KF-client-keeps-dead-connection-after-truncated-reply", k >= {"tcp": 8, "rtu": 2, "ascii": 5, "binary": 3}[framing])
+
+        def send_hook(client, request):
+            if client.closed == state["dead_gen"]:
+                state["pending"] = b""                 # written into a connection the peer has closed: no answer
+            elif state["dead_gen"] < 0:
+                state["pending"] = first[:k]           # the peer dies after k bytes of its reply
+                state["dead_gen"] = client.closed
+            else:
+                tidb = bytes([request[0], request[1]]) if framing == "tcp" else b""
+                state["pending"] = adu.ref_adu(framing, bytes([3, 2, v[2], v[3]]), u, tidb)
+            return len(request)
+
+        def recv_hook(client, size):
+            buf = state["pending"]
+            out, state["pending"] = (buf, b"") if size is None else (buf[:size], buf[size:])
+            return out
+        for i in range(1, 40):
+            cl.faults[("recv", i)] = recv_hook
+            cl.faults[("send", i)] = send_hook
+        req = F.ReadHoldingRegistersRequest(0, 1)
+        req.unit_id = u
+        try:
+            got = cl.execute(req)
+        except Exception as e:
+            explain("execute raised %s: %s", type(e).__name__, e)
+            return False
+        if not is_error_object(got):
+            explain("a reply cut after %r bytes was returned as %r", k, got)
+            return False
+        req2 = F.ReadHoldingRegistersRequest(1, 1)
+        req2.unit_id = u
+        try:
+            got2 = cl.execute(req2)
+        except Exception as e:
+            explain("follow-up transaction raised %s", type(e).__name__)
+            return False
+        if not hasattr(got2, "registers") or is_error_object(got2):
+            explain("after a peer close (k=%r) the follow-up transaction returned %r: closes=%d", k, got2, cl.closed)
+            return False
+        return same(list(got2.registers), [v[2] * 256 + v[3]], "follow-up reply")
+    return peerclose
+
+
 def deadline_tcp(steps: bytes) -> bool:
     """ModbusTcpClient._recv deadline loop with a symbolic clock and a socket that never delivers"""
     import pymodbus.client.sync as CS
@@ -265,6 +320,12 @@ def obligations(tier):
             out.append(Obl("retry.%s.after-%s" % (framing, first), make_retry(framing, first), timeout=T, contracts=contracts[framing], lemmas=lem[framing],
                            whole_finding="KF-retry-on-empty-never-retries" if first == "nothing" else None,
                            bounds="%s client, retries=2 with the matching retry option: first attempt answered by %s, second by the right reply" % (framing, first)))
+    for framing in (("tcp",) if tier == "quick" else ("tcp", "rtu")):
+        for retries in ((0,) if tier == "quick" else (0, 1)):
+            out.append(Obl("peerclose.%s.r%d" % (framing, retries), make_peerclose(framing, retries), timeout=T,
+                           contracts=contracts[framing], lemmas=lem[framing],
+                           findings=("KF-client-keeps-dead-connection-after-truncated-reply",),
+                           bounds="%s client over a connection-oriented transport, retries=%d: the peer closes after k bytes of the reply (k symbolic, 0..len-1); reads on that connection then return nothing; a connection opened after client.close() is healthy; follow-up transaction must return its reply" % (framing, retries)))
     out.append(Obl("deadline.tcp", deadline_tcp, timeout=T,
                    bounds="ModbusTcpClient._recv(8), timeout 4 s, silent socket, clock advancing by timeout/4 + a symbolic extra (12 symbolic steps)"))
     return out
